@@ -139,6 +139,8 @@ func cfgFor(dialect, m int) gmars.SimulatorConfig {
 	mode := gmars.ICWS94
 	if dialect == 88 {
 		mode = gmars.ICWS88
+	} else if m%2 == 1 {
+		mode = gmars.NOP94 // the third simulator mode is a '94 dialect too
 	}
 	l := 100
 	if l > m {
